@@ -204,6 +204,13 @@ pub fn main_entry(hooks: bool) {
                     None => {
                         use std::os::unix::process::ExitStatusExt;
                         let sig = status.signal().unwrap_or(0);
+                        // SIGKILL / SIGTERM / SIGINT / SIGHUP come from outside (a memory limit, a time-out, the
+                        // user), not from the code under test: a machinery exit, never a verdict
+                        if matches!(sig, 9 | 15 | 2 | 1) {
+                            machinery(&format!(
+                                "the exploration process was killed from outside (signal {sig}: memory limit or time-out?); no verdict"
+                            ));
+                        }
                         let dir = engine::verif_root().join("replays").join(&id);
                         let _ = std::fs::create_dir_all(&dir);
                         let path = dir.join("crash.json");
